@@ -368,3 +368,39 @@ func valueParent(v ssa.Value) *ssa.Function {
 	}
 	return nil
 }
+
+// cellAddr: the variable cell an address denotes: a captured variable is the enclosing function's
+// cell bound at the one place the literal is made.
+func cellAddr(addr ssa.Value) ssa.Value {
+	for i := 0; i < 4; i++ {
+		fv, ok := addr.(*ssa.FreeVar)
+		if !ok {
+			return addr
+		}
+		lit := fv.Parent()
+		if lit == nil || lit.Parent() == nil {
+			return addr
+		}
+		idx := -1
+		for j, v := range lit.FreeVars {
+			if v == fv {
+				idx = j
+			}
+		}
+		var cell ssa.Value
+		n := 0
+		for _, b := range lit.Parent().Blocks {
+			for _, in := range b.Instrs {
+				if mc, isMC := in.(*ssa.MakeClosure); isMC && mc.Fn == ssa.Value(lit) && idx >= 0 && idx < len(mc.Bindings) {
+					cell = mc.Bindings[idx]
+					n++
+				}
+			}
+		}
+		if n != 1 {
+			return addr
+		}
+		addr = cell
+	}
+	return addr
+}
